@@ -326,10 +326,10 @@ Proof.
   apply del_tokens_err_doc in E. subst. destruct s; reflexivity.
 Qed.
 
-Lemma pop_atomic : forall ph s i s' dl e, pop ph s i = (s', dl, Err e) -> e <> ModelStuck ->
+Lemma pop_atomic : forall ph s i s' dl e, pop ph s i = (s', dl, Err e) ->
   (forall x, list_get_int (s_items s) i = Ok x -> exists y, list_pop (s_items s) i = Ok y) -> s' = s.
 Proof.
-  intros ph s i s' dl e. unfold pop. intros H _ Hpop.
+  intros ph s i s' dl e. unfold pop. intros H Hpop.
   destruct (list_get_int (s_items s) i) as [it|e0] eqn:Eg; [|inversion H; reflexivity].
   destruct (range_from_index _ _); [|inversion H; reflexivity].
   destruct (del_tokens _ _ _ _ _) as [d' [u|e']] eqn:E.
